@@ -287,6 +287,10 @@ TEMPL=["-a","-A","-F","-C","-S","-k","-p","-w","-D","-a always,exit -F","-a alwa
 for i,t in enumerate(TEMPL):
     c13.append(job(f"flags-hole-{i}","rule/flags","VH_ParseHole",["C13/"],{"template":i,"maxlen":3},Q,bounds=f"'{t} <hole>' with a hole of 0..3 symbolic ASCII bytes, then Build"))
     c13.append(job(f"flags-hole5-{i}","rule/flags","VH_ParseHole",["C13/"],{"template":i,"maxlen":5},T,bounds=f"'{t} <hole>' with a hole of 0..5 symbolic ASCII bytes"))
+QTEMPL=["-a always,exit -F '@'","-a always,exit -F \"@\"","-a always,exit -C '@'","-a always,exit -S '@' -k '@'","-w '@' -p '@' -k '@'","-a always,exit -F a0=1 -k '@'","-a '@' -S open"]
+for i,t in enumerate(QTEMPL):
+    ml = 4 if t.count("@")==1 else 3
+    c13.append(job(f"flags-quoted-hole-{i}","rule/flags","VH_ParseHole",["C13/"],{"template":len(TEMPL)+i,"maxlen":ml},Q,bounds=f"{t} with @ a hole of 0..{ml} symbolic ASCII bytes (blanks, operator characters and quotes reach the flag's value), then Build"))
 C["C13"]={"jobs":c13,"assumptions":RULE_ASSUME+["an unwinding failure (loop cap) or an allocation beyond the cap on a path whose bound comes from an input number is reported as the violation"],
    "outside":["more than two header words symbolic at once","flags.Parse side: see the flags jobs"]}
 
